@@ -15,9 +15,12 @@ class RefHost:
         self.errors = list(errors)      # [(delay_s, errno)] socket errors surfacing at the prober after the probe
         self.delivered_plan = []
 
-    def on_probe(self, net, endpoint, data, dst_port, dst_ip):
+    def on_probe(self, net, endpoint, data, dst_port, dst_ip, overheard=False):
         ok = codec.probe_is_wellformed(data)
-        self.probes.append((net.loop.time(), dst_port, ok))
+        if overheard:
+            self.overheard = getattr(self, "overheard", 0) + 1
+        else:
+            self.probes.append((net.loop.time(), dst_port, ok))
         if self.verify_probe and not ok:
             return
         if self.answered:
